@@ -53,6 +53,22 @@ class Stub:
         return None
 
 
+def frac_value(spelled: str):
+    t, _, v = spelled.partition(":")
+    if t == "fraction":
+        from fractions import Fraction
+        return Fraction(v)
+    if t == "decimal":
+        from decimal import Decimal
+        return Decimal(v)
+    return float(v)
+
+
+FRAC_CASES = [("frac", w, v) for w in ("col", "row", "rc_col", "rc_abs", "rng_r2", "rng_c2", "rng_r1", "rng_c1")
+              for v in ("float:-0.5", "float:-0.25", "float:-1e-09", "float:-0.9999999", "fraction:-1/2", "fraction:-1/1000", "decimal:-0.5",
+                        "float:-1.5", "float:-2.0")]
+
+
 # ---------------------------------------------------------------- oracle
 def oracle_case(x, case) -> tuple[str, str] | None:
     """Implementation-only statement of C10 on one case. Returns (signature, detail) on failure."""
@@ -116,6 +132,16 @@ def oracle_case(x, case) -> tuple[str, str] | None:
             if call(x.xl_cell_to_rowcol, a)[0] != (r1, c1) or call(x.xl_cell_to_rowcol, b)[0] != (r2, c2):
                 return ("range-corners", f"xl_range{case[1:]} = {s!r}")
         return None
+    if kind == "frac":
+        # a negative coordinate that is not an integer: still negative, still no name (TypeError is as good as IndexError here)
+        _, which, spelled = case
+        v = frac_value(spelled)
+        calls = {"col": (x.xl_col_to_name, (v,)), "row": (x.xl_rowcol_to_cell, (v, 0)), "rc_col": (x.xl_rowcol_to_cell, (0, v)),
+                 "rc_abs": (x.xl_rowcol_to_cell, (v, v, True, True)), "rng_r2": (x.xl_range, (0, 0, v, 0)),
+                 "rng_c2": (x.xl_range, (0, 0, 0, v)), "rng_r1": (x.xl_range, (v, 0, 1, 1)), "rng_c1": (x.xl_range, (0, v, 1, 1))}
+        f, args = calls[which]
+        got, e = call(f, *args)
+        return None if e else ("negative-accepted", f"{f.__name__}{args} -> {got!r}")
     if kind == "c2i":
         _, s = case
         from numbers_parser.tokenizer import parse_numbers_range
@@ -278,7 +304,8 @@ def run(ctx: Ctx) -> int:
     ctx.dist("ranges", len(rng_cases))
     # 3. implementation-only oracle over the same structured cases
     names_for_c2i = [("c2i", x.xl_col_to_name(c)) for c in range(0, 18278, 13)]
-    for case in col_cases + rc_cases + rng_cases + order_cases + names_for_c2i:
+    ctx.dist("negative_non_integers", len(FRAC_CASES))
+    for case in col_cases + rc_cases + rng_cases + order_cases + names_for_c2i + FRAC_CASES:
         try:
             res = oracle_case(x, case)
         except Exception as e:  # noqa: BLE001
